@@ -2,9 +2,20 @@
 
 A history spec is JSON-able:
 
-  {'kind': 'history', 'goals': ['MAX','MIN',..], 'safety': None | {'goal','thr'},
-   'trials': [{'k': kind, 'v': [float|None per objective] | None, 's': float|None}, ...],
+  {'kind': 'history', 'goals': ['MAX','MIN',..], 'names': [objective metric names],
+   'safeties': [{'name','goal','thr'}, ...]   (0..3 safety metrics),
+   'cfg': [every configured metric name, in the order of the study configuration],
+   'trials': [{'k': kind, 'v': [float|None per objective] | None,
+               'ss': [float|None per safety metric],
+               'ord': [metric names in the order this trial reports them] (optional),
+               'zn'/'zz': name / value of an unconfigured metric, 'near': {name: value}
+               unconfigured metrics whose names nearly match a configured one}, ...],
    'mode': 'direct' | 'rpc', 'count': None | int, 'index': j}
+
+(the older form with 'safety': None | {'goal','thr'} and a per trial 's' is still
+accepted, see norm_spec.) Metrics are identified by *name*: neither the order in
+which a trial lists its metrics, nor the order / spelling of the names in the
+study configuration, nor unconfigured metrics may change the answer.
 
 kinds: ok, extra (ok + an unconfigured metric), missing (SUCCEEDED but an
 objective metric absent), nan (SUCCEEDED, an objective is NaN), infeasible
@@ -27,21 +38,81 @@ def _f(x):
 # ---------------------------------------------------------------------------
 # generator
 # ---------------------------------------------------------------------------
+NAME_SETS = [
+    # (objective names, safety names); within a set all names are distinct
+    (['m0', 'm1', 'm2'], ['s', 's1', 's2']),
+    (['zeta', 'alpha', 'mid'], ['temp', 'margin', 'a_limit']),   # config order != sorted
+    (['b', 'a', 'ab'], ['ba', 'B', 'z']),                        # prefixes, case
+    (['loss', 'Loss', 'acc'], ['zz_safe', 'loss_limit', 'ACC']),  # differ by case only
+]
+
+
+def near_names(configured, name):
+  """Unconfigured metric names that nearly match the configured `name`."""
+  cand = [name + '_', name.swapcase(), name[:-1], name + '0', ' ' + name]
+  return [c for c in cand if c and c.strip() and c not in configured]
+
+
+def canonical_cfg(spec):
+  return list(spec['names']) + [s['name'] for s in spec['safeties']]
+
+
+def norm_spec(spec):
+  """Older recorded cases (single 'safety', per trial 's') -> current form."""
+  if 'safeties' in spec and 'names' in spec and 'cfg' in spec:
+    return spec
+  spec = dict(spec)
+  spec.setdefault('names', [f'm{i}' for i in range(len(spec['goals']))])
+  if 'safeties' not in spec:
+    old = spec.get('safety')
+    spec['safeties'] = [dict(old, name='s')] if old else []
+  trials = []
+  for t in spec['trials']:
+    t = dict(t)
+    if 'ss' not in t:
+      t['ss'] = [t.get('s')] if spec['safeties'] else []
+    trials.append(t)
+  spec['trials'] = trials
+  spec.setdefault('cfg', canonical_cfg(spec))
+  return spec
+
+
 def gen_history(rng, tier, j):
   n_obj = rng.choice([1, 1, 2, 2, 2, 3])
   goals = [rng.choice(['MAX', 'MIN']) for _ in range(n_obj)]
-  safety = None
-  if rng.random() < 0.25:
-    safety = {'goal': rng.choice(['MAX', 'MIN']), 'thr': 1.0}
+  obj_names, saf_names = NAME_SETS[rng.choice([0, 0, 1, 2, 3])]
+  names = list(obj_names[:n_obj])
+  if rng.random() < 0.3:
+    rng.shuffle(names)
+  n_saf = rng.choice([0] * 14 + [1, 1, 2, 2, 2, 3])
+  safeties = [{'name': saf_names[i], 'goal': rng.choice(['MAX', 'MIN']),
+               'thr': rng.choice([1.0, 1.0, 1.0, 0.0, 2.0, 0.5])} for i in range(n_saf)]
+  cfg = names + [s['name'] for s in safeties]
+  if rng.random() < 0.5:
+    rng.shuffle(cfg)        # e.g. a safety metric configured before / between objectives
+  p_report = rng.choice([1.0, 0.85, 0.85, 0.6])
   hi = 14 if tier == 'quick' else 24
   n = rng.choice([0, 1, 1, 2, 2, 3, 3, 4, 5, 6, 7, 8, 10, 12, hi])
   profile = rng.choice(['clean', 'mixed', 'mixed', 'hostile', 'none-qualify'])
   lattice = rng.choice([1, 2, 2, 3])
+  # how trials list their metrics: all in configuration order / all in one other
+  # order / every trial in its own order (two generations of a training script)
+  order_profile = rng.choice(['config', 'config', 'consistent', 'shuffled', 'shuffled',
+                              'shuffled'])
 
   def val():
     if rng.random() < 0.06:
       return rng.choice([INF, -INF])
     return float(rng.randint(0, lattice))
+
+  def tempting():
+    return [(3.0 if g == 'MAX' else -3.0) for g in goals]
+
+  def violates(t):
+    for s, x in zip(safeties, t['ss']):
+      if x is not None and not (x >= s['thr'] if s['goal'] == 'MAX' else x <= s['thr']):
+        return True
+    return False
 
   trials = []
   for _ in range(n):
@@ -54,26 +125,36 @@ def gen_history(rng, tier, j):
       k = rng.choice(['ok', 'ok'] + KINDS)
     else:
       k = rng.choice(KINDS[2:])
-    t = {'k': k, 'v': None, 's': None}
+    t = {'k': k, 'v': None, 'ss': [None] * n_saf}
     if k in ('ok', 'extra', 'missing', 'nan') or (
         k in ('infeasible', 'active', 'stopping') and rng.random() < 0.6):
       # non-qualifying trials get tempting values: at least as good as anything
       t['v'] = [val() for _ in goals]
       if k in ('infeasible', 'active', 'stopping', 'missing', 'nan') and rng.random() < 0.5:
-        t['v'] = [(3.0 if g == 'MAX' else -3.0) for g in goals]
-      if safety and rng.random() < 0.85:
-        t['s'] = float(rng.randint(0, 2))
+        t['v'] = tempting()
+      t['ss'] = [float(rng.randint(0, 2)) if rng.random() < p_report else None
+                 for _ in safeties]
+      if k in ('ok', 'extra') and violates(t) and rng.random() < 0.4:
+        # so do trials that break a safety threshold: whether they are seen as
+        # unsafe then decides the answer
+        t['v'] = tempting()
     if k == 'extra':
       # the unconfigured metric may itself be not-a-number / infinite (a diverged
       # auxiliary loss): it must not disqualify a trial that reports every
       # configured metric as a number. 'extra' trials also get tempting values.
       t['zz'] = rng.choice(['7.0', 'nan', 'nan', 'inf', '-inf', '0.0'])
+      if rng.random() < 0.4:
+        t['zn'] = rng.choice(near_names(cfg, rng.choice(cfg)))
       if rng.random() < 0.5:
-        t['v'] = [(3.0 if g == 'MAX' else -3.0) for g in goals]
+        t['v'] = tempting()
     if k == 'missing':
       drop = rng.sample(range(n_obj), rng.randint(1, max(1, n_obj - 1)))
       for d in drop:
         t['v'][d] = None
+        if rng.random() < 0.4:
+          # the absent objective is "almost" there: reported under a similar name
+          t.setdefault('near', {})[rng.choice(near_names(cfg, names[d]))] = (
+              3.0 if goals[d] == 'MAX' else -3.0)
     if k == 'nan':
       for d in rng.sample(range(n_obj), rng.randint(1, n_obj)):
         t['v'][d] = float('nan')
@@ -83,10 +164,26 @@ def gen_history(rng, tier, j):
     oks = [t for t in trials if t['k'] == 'ok']
     if oks:
       src = rng.choice(oks)
-      trials[rng.randrange(n)] = {'k': 'ok', 'v': list(src['v']), 's': src['s']}
-  return {'kind': 'history', 'goals': goals, 'safety': safety, 'trials': trials,
+      trials[rng.randrange(n)] = {'k': 'ok', 'v': list(src['v']), 'ss': list(src['ss'])}
+  spec = {'kind': 'history', 'goals': goals, 'names': names, 'safeties': safeties,
+          'cfg': cfg, 'trials': trials, 'order_profile': order_profile,
           'mode': 'rpc' if j % 4 == 0 else 'direct',
           'count': rng.choice([None, None, None, 1, 2, 3, 5]), 'index': j}
+  # reporting order of every trial
+  if order_profile != 'config':
+    common = None
+    for t in trials:
+      reported = list(_metrics(spec, dict(t, ord=None)))
+      if order_profile == 'consistent':
+        if common is None:
+          pool = list(cfg) + ['\x00other']
+          rng.shuffle(pool)
+          common = {name: r for r, name in enumerate(pool)}
+        reported.sort(key=lambda name: common.get(name, common['\x00other']))
+      else:
+        rng.shuffle(reported)
+      t['ord'] = reported
+  return spec
 
 
 # ---------------------------------------------------------------------------
@@ -122,27 +219,57 @@ def objectives_ok(t):
           and all(x is not None and x == x for x in t['v']))
 
 
+def safety_pattern(spec, t):
+  """One letter per safety metric, in configuration order: 'v' reported and beyond
+  its threshold, 'o' reported and within it, '-' not reported."""
+  by_name = {}
+  for s, x in zip(spec['safeties'], t['ss']):
+    if x is None:
+      by_name[s['name']] = '-'
+    else:
+      ok = x >= s['thr'] if s['goal'] == 'MAX' else x <= s['thr']
+      by_name[s['name']] = 'o' if ok else 'v'
+  return ''.join(by_name[n] for n in spec['cfg'] if n in by_name)
+
+
 def unsafe(spec, t):
-  s = spec['safety']
-  if s is None or t['s'] is None:
-    return False
-  return not (t['s'] >= s['thr'] if s['goal'] == 'MAX' else t['s'] <= s['thr'])
+  """Some *reported* safety metric is beyond its threshold (an unreported one is
+  assumed to be fine, as documented by SafetyChecker)."""
+  return 'v' in safety_pattern(spec, t)
+
+
+def unsafe_condition(spec, t):
+  """Shape of an unsafe trial's safety report (for mechanism ids)."""
+  pat = safety_pattern(spec, t)
+  if len(pat) == 1:
+    return 'single-safety-metric'
+  first, last = pat.index('v'), pat.rindex('v')
+  if '-' in pat[:first]:
+    return 'an-earlier-safety-metric-unreported'
+  if 'o' in pat[:first]:
+    return 'an-earlier-safety-metric-within-threshold'
+  if 'o' in pat[last + 1:]:
+    return 'a-later-safety-metric-within-threshold'
+  if '-' in pat[last + 1:]:
+    return 'a-later-safety-metric-unreported'
+  return 'every-safety-metric-violated'
 
 
 def interpretations(spec):
   """name -> (set of qualifying idx, {idx: sign-normalised vector})."""
   goals = spec['goals']
-  T = [dict(t, v=None if t['v'] is None else [_f(x) for x in t['v']], s=_f(t['s']))
+  T = [dict(t, v=None if t['v'] is None else [_f(x) for x in t['v']],
+            ss=[_f(x) for x in t['ss']])
        for t in spec['trials']]
   q_obj = [i for i, t in enumerate(T) if objectives_ok(t)]
   out = {}
-  if spec['safety'] is None:
+  if not spec['safeties']:
     out['plain'] = (set(q_obj), {i: _signed(goals, T[i]['v']) for i in q_obj})
     return out, T
-  q_all = [i for i in q_obj if T[i]['s'] is not None]
-  sg = spec['safety']['goal']
+  q_all = [i for i in q_obj if all(x is not None for x in T[i]['ss'])]
+  sg = [s['goal'] for s in spec['safeties']]
   out['safety-as-objective'] = (set(q_all), {
-      i: _signed(goals + [sg], T[i]['v'] + [T[i]['s']]) for i in q_all})
+      i: _signed(goals + sg, T[i]['v'] + T[i]['ss']) for i in q_all})
   worst = [-INF] * len(goals)
   for name, q in (('warp-unsafe', q_obj), ('warp-unsafe:safety-required', q_all)):
     out[name] = (set(q), {i: (worst if unsafe(spec, T[i]) else _signed(goals, T[i]['v']))
@@ -186,39 +313,74 @@ def _study_config(spec):
   from vizier.service import pyvizier as svz
   sc = svz.StudyConfig()
   sc.search_space.root.add_float_param('x', 0.0, 1.0)
-  for i, g in enumerate(spec['goals']):
-    sc.metric_information.append(vz.MetricInformation(
-        name=f'm{i}', goal=getattr(vz.ObjectiveMetricGoal, g + 'IMIZE')))
-  if spec['safety']:
-    sc.metric_information.append(vz.MetricInformation(
-        name='s', goal=getattr(vz.ObjectiveMetricGoal, spec['safety']['goal'] + 'IMIZE'),
-        safety_threshold=float(spec['safety']['thr'])))
+  goal_of = dict(zip(spec['names'], spec['goals']))
+  safety_of = {s['name']: s for s in spec['safeties']}
+  for name in spec['cfg']:
+    if name in goal_of:
+      sc.metric_information.append(vz.MetricInformation(
+          name=name, goal=getattr(vz.ObjectiveMetricGoal, goal_of[name] + 'IMIZE')))
+    else:
+      s = safety_of[name]
+      sc.metric_information.append(vz.MetricInformation(
+          name=name, goal=getattr(vz.ObjectiveMetricGoal, s['goal'] + 'IMIZE'),
+          safety_threshold=float(s['thr'])))
   sc.algorithm = 'RANDOM_SEARCH'
   return sc
 
 
-def _metrics(t):
-  """metric name -> value of the (final or intermediate) measurement of a spec trial."""
+def _metrics(spec, t):
+  """metric name -> value of the (final or intermediate) measurement of a spec
+  trial, as a dict in the order in which the trial reports them (t['ord'], default:
+  the order of the study configuration, unconfigured metrics last)."""
   m = {}
   if t['v'] is not None:
-    for i, x in enumerate(t['v']):
+    for name, x in zip(spec['names'], t['v']):
       if x is not None:
-        m[f'm{i}'] = float(x)
-  if t['s'] is not None:
-    m['s'] = float(t['s'])
+        m[name] = float(x)
+  for s, x in zip(spec['safeties'], t['ss']):
+    if x is not None:
+      m[s['name']] = float(x)
+  m = {name: m[name] for name in spec['cfg'] if name in m}
+  for name, x in (t.get('near') or {}).items():
+    m[name] = float(x)
   if t['k'] == 'extra' or (t['k'] == 'missing' and not m):
-    m['zz'] = float(t.get('zz', '7.0'))
+    m[t.get('zn', 'zz')] = float(t.get('zz', '7.0'))
+  if t.get('ord'):
+    ordered = {name: m[name] for name in t['ord'] if name in m}
+    ordered.update(m)
+    m = ordered
   return m
 
 
-def build_direct(servicer, study_name, T):
+def report_orders(spec, metric_lists):
+  """Number of different relative orders in which the configured metrics appear in
+  the given lists of metric names (only lists naming >= 2 configured metrics)."""
+  cfg = set(spec['cfg'])
+  orders = set()
+  for names in metric_lists:
+    rel = tuple(n for n in names if n in cfg)
+    if len(rel) >= 2:
+      # compare as ranks of the names both lists share: normalise pairwise
+      orders.add(rel)
+  differ = False
+  L = list(orders)
+  for a in range(len(L)):
+    for b in range(a + 1, len(L)):
+      common = set(L[a]) & set(L[b])
+      if len(common) >= 2 and ([n for n in L[a] if n in common]
+                               != [n for n in L[b] if n in common]):
+        differ = True
+  return differ
+
+
+def build_direct(servicer, study_name, spec, T):
   """Writes the trials straight into the datastore in spec order; ids 1..n."""
   from vizier._src.service import study_pb2
   for i, t in enumerate(T):
     tp = study_pb2.Trial(name=f'{study_name}/trials/{i + 1}', id=str(i + 1),
                          state=getattr(study_pb2.Trial.State, STATE_OF[t['k']]))
     tp.parameters.add(parameter_id='x').value.number_value = 0.5
-    m = _metrics(t)
+    m = _metrics(spec, t)
     if t['k'] in ('active', 'stopping'):
       if m:
         mm = tp.measurements.add(step_count=1)
@@ -235,7 +397,7 @@ def build_direct(servicer, study_name, T):
   return {i + 1: i for i in range(len(T))}
 
 
-def build_rpc(servicer, study_name, T):
+def build_rpc(servicer, study_name, spec, T):
   """Drives the client API; returns {trial id: spec index}."""
   from vizier import pyvizier as vz
   from vizier._src.service import clients, vizier_client
@@ -245,7 +407,7 @@ def build_rpc(servicer, study_name, T):
       i for i, t in enumerate(T) if t['k'] == 'requested']
   for i in order:
     t = T[i]
-    m = _metrics(t)
+    m = _metrics(spec, t)
     meas = vz.Measurement(metrics=m)
     if t['k'] == 'requested':
       tc = study.request(vz.TrialSuggestion({'x': 0.25}))
@@ -289,54 +451,133 @@ def _classify_set(prefix, got_idx, primary_front, primary_q, T):
   return mechs or [f'{prefix}:unclassified']
 
 
-def check_service(ctx, spec, S, fronts, interp, T):
+def ask_service(servicer, S, spec, T):
+  """Builds the history in a fresh study, asks ListOptimalTrials and the client.
+
+  Returns None when the built history is not what the spec says (harness problem,
+  reported by the caller), else a dict."""
   from vizier._src.service import study_pb2, vizier_service_pb2, resources
   from vizier._src.service import clients, vizier_client
-  for dsname, servicer in (('ram', S.ram), ('sql', S.sql)):
-    sid = S.fresh_name()
-    study = study_pb2.Study(display_name=sid, study_spec=_study_config(spec).to_proto())
-    st = servicer.CreateStudy(vizier_service_pb2.CreateStudyRequest(
-        parent=resources.OwnerResource('c11').name, study=study))
+  sid = S.fresh_name()
+  study = study_pb2.Study(display_name=sid, study_spec=_study_config(spec).to_proto())
+  st = servicer.CreateStudy(vizier_service_pb2.CreateStudyRequest(
+      parent=resources.OwnerResource('c11').name, study=study))
+  try:
+    if spec['mode'] == 'rpc':
+      idmap = build_rpc(servicer, st.name, spec, T)
+    else:
+      idmap = build_direct(servicer, st.name, spec, T)
+    # harness self check: the history really is what the spec says
+    listed = servicer.ListTrials(vizier_service_pb2.ListTrialsRequest(parent=st.name)).trials
+    states = {int(t.id): study_pb2.Trial.State.Name(t.state) for t in listed}
+    want = {tid: STATE_OF[T[i]['k']] for tid, i in idmap.items()}
+    if states != want:
+      return {'harness': f'built history has states {states}, wanted {want} '
+                         f'(mode {spec["mode"]}, index {spec["index"]})'}
+    stored_cfg = [m.metric_id for m in servicer.GetStudy(
+        vizier_service_pb2.GetStudyRequest(name=st.name)).study_spec.metrics]
+    resp = servicer.ListOptimalTrials(
+        vizier_service_pb2.ListOptimalTrialsRequest(parent=st.name))
+    ids = [int(t.id) for t in resp.optimal_trials]
+    cl = clients.Study(vizier_client.VizierClient(st.name, 'c11', servicer))
+    cids = [t.id for t in cl.optimal_trials()]
+    cids2 = [t.id for t in cl.optimal_trials().get()]
     try:
-      if spec['mode'] == 'rpc':
-        idmap = build_rpc(servicer, st.name, T)
-        ctx.count('hist:rpc_mode')
-      else:
-        idmap = build_direct(servicer, st.name, T)
-      # harness self check: the history really is what the spec says
-      listed = servicer.ListTrials(vizier_service_pb2.ListTrialsRequest(parent=st.name)).trials
-      states = {int(t.id): study_pb2.Trial.State.Name(t.state) for t in listed}
-      want = {tid: STATE_OF[T[i]['k']] for tid, i in idmap.items()}
-      if states != want:
-        ctx.inconclusive_reason(f'harness: built history has states {states}, wanted {want} '
-                                f'(mode {spec["mode"]}, index {spec["index"]})')
-        continue
-      resp = servicer.ListOptimalTrials(
-          vizier_service_pb2.ListOptimalTrialsRequest(parent=st.name))
-      ids = [int(t.id) for t in resp.optimal_trials]
-      ctx.count('hist:service_' + dsname)
-      case = dict(spec, datastore=dsname)
-      decide(ctx, case, 'service:ListOptimalTrials', ids, idmap, fronts, interp, T,
-             primary='safety-as-objective')
-      # the client must hand through exactly that answer
-      cl = clients.Study(vizier_client.VizierClient(st.name, 'c11', servicer))
-      cids = [t.id for t in cl.optimal_trials()]
-      cids2 = [t.id for t in cl.optimal_trials().get()]
-      ctx.count('hist:client')
-      if sorted(cids) != sorted(ids) or sorted(cids2) != sorted(ids):
-        ctx.violation('client:optimal_trials:differs-from-ListOptimalTrials',
-                      'clients.Study.optimal_trials returned other trials than the RPC',
-                      case, {'rpc': ids, 'client': cids, 'client_get': cids2})
-      try:
-        cl.optimal_trials(count=2)
-        ctx.count('client_count_accepted')
-      except ValueError:
-        ctx.count('client_count_refused_documented')
-    finally:
-      servicer.DeleteStudy(vizier_service_pb2.DeleteStudyRequest(name=st.name))
+      cl.optimal_trials(count=2)
+      count_refused = False
+    except ValueError:
+      count_refused = True
+    return {'ids': ids, 'idmap': idmap, 'client': cids, 'client_get': cids2,
+            'count_refused': count_refused, 'stored_cfg': stored_cfg,
+            'final_metric_lists': [
+                [m.metric_id for m in t.final_measurement.metrics] for t in listed
+                if t.state == study_pb2.Trial.State.SUCCEEDED]}
+  finally:
+    servicer.DeleteStudy(vizier_service_pb2.DeleteStudyRequest(name=st.name))
 
 
-def decide(ctx, case, prefix, ids, idmap, fronts, interp, T, primary):
+def presentation_variants(spec):
+  """The same history, presented differently: (tag, spec) pairs.
+
+  The answer is a function of {metric name: value} per trial and of
+  {metric name: goal / threshold}; neither the order in which a trial lists its
+  metrics, nor the order of the study configuration, nor the spelling of the
+  names carries meaning. Used to *name* a disagreement (mechanism id), the
+  verdict itself comes from the definition."""
+  out = []
+  if any(t.get('ord') for t in spec['trials']):
+    out.append(('metric-report-order', dict(
+        spec, trials=[{k: v for k, v in t.items() if k != 'ord'} for t in spec['trials']])))
+  base = out[-1][1] if out else spec
+  if spec['cfg'] != canonical_cfg(spec):
+    out.append(('metric-config-order', dict(base, cfg=canonical_cfg(spec))))
+  base = out[-1][1] if out else spec
+  plain = [f'm{i}' for i in range(len(spec['goals']))]
+  plain_s = ['s', 's1', 's2'][:len(spec['safeties'])]
+  if spec['names'] != plain or [s['name'] for s in spec['safeties']] != plain_s:
+    ren = dict(zip(spec['names'], plain))
+    ren.update(zip([s['name'] for s in spec['safeties']], plain_s))
+    trials = []
+    for t in base['trials']:
+      t = {k: v for k, v in t.items() if k not in ('zn', 'near')}
+      trials.append(t)
+    out.append(('metric-names', dict(
+        base, names=plain, cfg=[ren[n] for n in base['cfg']],
+        safeties=[dict(s, name=ren[s['name']]) for s in spec['safeties']], trials=trials)))
+  return out
+
+
+def presentation_suffix(spec, agrees):
+  """':depends-on-<what>' when the disagreement vanishes for a re-presentation."""
+  for tag, spec2 in presentation_variants(spec):
+    try:
+      if agrees(spec2):
+        return ':depends-on-' + tag
+    except Exception:  # pylint: disable=broad-except
+      return ''
+  return ''
+
+
+def check_service(ctx, spec, S, fronts, interp, T):
+  for dsname, servicer in (('ram', S.ram), ('sql', S.sql)):
+    ans = ask_service(servicer, S, spec, T)
+    if 'harness' in ans:
+      ctx.inconclusive_reason('harness: ' + ans['harness'])
+      continue
+    if spec['mode'] == 'rpc':
+      ctx.count('hist:rpc_mode')
+    if ans['stored_cfg'] != spec['cfg']:
+      ctx.inconclusive_reason(f'harness: study stores metrics {ans["stored_cfg"]}, '
+                              f'configured {spec["cfg"]}')
+      continue
+    # what the datastore really holds (not what the generator intended)
+    if report_orders(spec, ans['final_metric_lists']):
+      ctx.count('hist:service_report_orders_differ')
+    ids, idmap = ans['ids'], ans['idmap']
+    ctx.count('hist:service_' + dsname)
+    case = dict(spec, datastore=dsname)
+
+    def agrees(spec2, servicer=servicer):
+      fr2, _, T2 = expected_fronts(spec2)
+      a2 = ask_service(servicer, S, spec2, T2)
+      if 'harness' in a2:
+        return False
+      got2 = {a2['idmap'][i] for i in a2['ids'] if i in a2['idmap']}
+      return len(got2) == len(a2['ids']) and any(fr == got2 for fr in fr2.values())
+    decide(ctx, case, 'service:ListOptimalTrials', ids, idmap, fronts, interp, T,
+           primary='safety-as-objective', agrees=agrees)
+    # the client must hand through exactly that answer
+    ctx.count('hist:client')
+    if sorted(ans['client']) != sorted(ids) or sorted(ans['client_get']) != sorted(ids):
+      ctx.violation('client:optimal_trials:differs-from-ListOptimalTrials',
+                    'clients.Study.optimal_trials returned other trials than the RPC',
+                    case, {'rpc': ids, 'client': ans['client'],
+                           'client_get': ans['client_get']})
+    ctx.count('client_count_refused_documented' if ans['count_refused']
+              else 'client_count_accepted')
+
+
+def decide(ctx, case, prefix, ids, idmap, fronts, interp, T, primary, agrees=None):
   """ids: reported trial ids (count=None semantics: the whole front)."""
   if len(set(ids)) != len(ids):
     ctx.violation(f'{prefix}:duplicate-trial-in-answer', f'{prefix} reported a trial twice',
@@ -363,22 +604,25 @@ def decide(ctx, case, prefix, ids, idmap, fronts, interp, T, primary):
   if not (nan_reported and any(fr == rest for fr in fronts.values())):
     mechs += [m for m in _classify_set(prefix, rest, fronts[pname], interp[pname][0], T)
               if m not in mechs]
+  suffix = presentation_suffix(case, agrees) if agrees else ''
   for mech in mechs:
-    ctx.violation(mech, f'{prefix} disagrees with the definition of optimal trials '
+    ctx.violation(mech + suffix,
+                  f'{prefix} disagrees with the definition of optimal trials '
                   f'(under every accepted reading; classified against "{pname}")', case,
-                  {'reported_spec_indices': sorted(got),
+                  {'elapsed_s': round(ctx.elapsed(), 1), 'reported_spec_indices': sorted(got),
                    'expected_by_reading': {k: sorted(v) for k, v in fronts.items()},
                    'reported_kinds': [T[i]['k'] for i in sorted(got)]})
 
 
-def check_getbest(ctx, spec, fronts, interp, T):
+def ask_getbest(spec, T, count):
+  """Fresh InRamPolicySupporter holding the history -> dict (ids or the exception)."""
   from vizier import pyvizier as vz
   from vizier._src.pythia import local_policy_supporters as lps
   problem = _study_config(spec).to_problem()
   sup = lps.InRamPolicySupporter(problem)
   trials = []
   for t in T:
-    m = _metrics(t)
+    m = _metrics(spec, t)
     tr = vz.Trial(parameters={'x': 0.5})
     if t['k'] in ('ok', 'extra', 'missing', 'nan'):
       tr.complete(vz.Measurement(metrics=m))
@@ -394,23 +638,40 @@ def check_getbest(ctx, spec, fronts, interp, T):
     trials.append(tr)
   sup.AddTrials(trials)
   if [t.id for t in sup.trials] != list(range(1, len(T) + 1)):
-    ctx.inconclusive_reason('harness: InRamPolicySupporter did not number trials 1..n')
+    return {'harness': 'InRamPolicySupporter did not number trials 1..n'}
+  out = {'final_metric_lists': [
+      list(t.final_measurement.metrics) for t in sup.trials
+      if t.final_measurement is not None and not t.infeasible], 'answers': {}}
+  for c in count:
+    try:
+      out['answers'][c] = [t.id for t in sup.GetBestTrials(count=c)]
+    except Exception as e:  # pylint: disable=broad-except
+      out['answers'][c] = e
+  return out
+
+
+def check_getbest(ctx, spec, fronts, interp, T):
+  counts = [None] if spec['count'] is None else [None, spec['count']]
+  ans = ask_getbest(spec, T, counts)
+  if 'harness' in ans:
+    ctx.inconclusive_reason('harness: ' + ans['harness'])
     return
+  if report_orders(spec, ans['final_metric_lists']):
+    ctx.count('hist:getbest_report_orders_differ')
   idmap = {i + 1: i for i in range(len(T))}
   single = len(spec['goals']) == 1
   so = 'single' if single else 'multi'
   prefix = f'getbest:{so}'
   case = dict(spec, subject='GetBestTrials')
-  pname = 'warp-unsafe' if spec['safety'] else 'plain'
-  for count in ([None] if spec['count'] is None else [None, spec['count']]):
-    try:
-      res = sup.GetBestTrials(count=count)
-    except Exception as e:  # pylint: disable=broad-except
+  pname = 'warp-unsafe' if spec['safeties'] else 'plain'
+  for count in counts:
+    ids = ans['answers'][count]
+    if isinstance(ids, Exception):
+      e = ids
       ctx.violation(f'{prefix}:raised:{type(e).__name__}',
                     f'GetBestTrials(count={count}) raised {type(e).__name__}: {e}',
                     dict(case, count=count))
       continue
-    ids = [t.id for t in res]
     ctx.count('hist:getbest')
     if count is not None:
       ctx.count('hist:getbest_count')
@@ -423,12 +684,26 @@ def check_getbest(ctx, spec, fronts, interp, T):
     if not mechs:
       ctx.count('hist:answers_matching_definition')
       continue
+
+    def agrees(spec2, count=count):
+      fr2, in2, T2 = expected_fronts(spec2)
+      a2 = ask_getbest(spec2, T2, [count])
+      ids2 = a2.get('answers', {}).get(count)
+      if not isinstance(ids2, list) or any(i not in idmap for i in ids2):
+        return False
+      return not classify_getbest(spec2, so, {idmap[i] for i in ids2}, ids2, fr2, in2, T2,
+                                  count, pname)
+    suffix = presentation_suffix(case, agrees)
     for mech in mechs:
-      ctx.violation(mech, f'InRamPolicySupporter.GetBestTrials(count={count}) disagrees '
+      ctx.violation(mech + suffix,
+                    f'InRamPolicySupporter.GetBestTrials(count={count}) disagrees '
                     'with the definition of optimal trials', dict(case, count=count),
-                    {'reported_spec_indices': [idmap.get(i) for i in ids],
+                    {'elapsed_s': round(ctx.elapsed(), 1),
+                     'reported_spec_indices': [idmap.get(i) for i in ids],
                      'expected_by_reading': {k: sorted(v) for k, v in fronts.items()},
-                     'reported_kinds': [T[idmap[i]]['k'] for i in ids if i in idmap]})
+                     'reported_kinds': [T[idmap[i]]['k'] for i in ids if i in idmap],
+                     'safety_patterns_of_reported': [
+                         safety_pattern(spec, T[idmap[i]]) for i in ids if i in idmap]})
 
 
 def labelled(T, i, spec):
@@ -461,18 +736,18 @@ def classify_getbest(spec, so, got, ids, fronts, interp, T, count, pname):
   if len(set(ids)) != len(ids):
     return [f'{prefix}:duplicate-trial-in-answer']
   # 1. agreement with any accepted reading
-  for name, (q, vec) in interp.items():
-    fr = fronts[name]
+  def agrees_with(q, vec, fr):
     if count is None:
-      if got == fr:
-        return []
-    elif so == 'single':
+      return got == fr
+    if so == 'single':
       want = min(count, len(q))
       if len(got) == want and got <= q:
         best = sorted((vec[i][0] for i in q), reverse=True)[:want]
-        if best == sorted((vec[i][0] for i in got), reverse=True):
-          return []
-    elif got <= fr and len(got) == min(count, len(fr)):
+        return best == sorted((vec[i][0] for i in got), reverse=True)
+      return False
+    return got <= fr and len(got) == min(count, len(fr))
+  for name, (q, vec) in interp.items():
+    if agrees_with(q, vec, fronts[name]):
       return []
   # 2. shape of the disagreement, against the subject's own reading
   q, vec = interp[pname]
@@ -508,6 +783,16 @@ def classify_getbest(spec, so, got, ids, fronts, interp, T, count, pname):
     vec = dict(vec)
     vec.update(extra)
     fr = _front(vec)
+  # reported trials that break a safety threshold: is the answer the one the
+  # definition gives when exactly those are taken to be safe?
+  unsafe_rep = sorted(i for i in got if i in interp[pname][0] and unsafe(spec, T[i]))
+  if unsafe_rep and not mechs:
+    vec2 = dict(vec)
+    for i in unsafe_rep:
+      vec2[i] = _signed(goals, T[i]['v'])
+    if agrees_with(q, vec2, _front(vec2)):
+      return ['getbest:unsafe-trial-ranked-as-if-safe:'
+              + unsafe_condition(spec, T[unsafe_rep[0]])]
   eff = 1 if count is None else count
   if so == 'single':
     if unlabelled:
@@ -549,24 +834,47 @@ def classify_getbest(spec, so, got, ids, fronts, interp, T, count, pname):
 
 
 def check_history(ctx, spec, S):
+  spec = norm_spec(spec)
   fronts, interp, T = expected_fronts(spec)
   goals = spec['goals']
   kinds = sorted(t['k'] for t in T)
-  pname = 'safety-as-objective' if spec['safety'] else 'plain'
+  pname = 'safety-as-objective' if spec['safeties'] else 'plain'
   front = fronts[pname]
   n_q = len(interp[pname][0])
   nontrivial = len(T) >= 2 and (len(front) < len(T))
-  ctx.case(['history', goals, bool(spec['safety']), kinds, len(front), spec['mode'],
-            spec['count']], nontrivial=nontrivial)
+  cfg = spec['cfg']
+  cfg_shape = ''.join('o' if n in spec['names'] else 's' for n in cfg)
+  ctx.case(['history', goals, cfg_shape, cfg == sorted(cfg), kinds, len(front),
+            spec['mode'], spec['count'], spec.get('order_profile')], nontrivial=nontrivial)
   if any(k not in QUALIFYING for k in kinds):
     ctx.count('hist:with_nonqualifying')
   for k in set(kinds):
     ctx.count('hist_kind:' + k)
-  if spec['safety']:
+  if spec['safeties']:
     ctx.count('hist:with_safety')
+    if len(spec['safeties']) >= 2:
+      ctx.count('hist:multi_safety')
+    q_obj = interp['warp-unsafe'][0]
+    pats = {safety_pattern(spec, T[i]) for i in q_obj}
+    if any('-' in p and p.strip('-') for p in pats):
+      ctx.count('hist:safety_partially_reported')
+    for i in q_obj:
+      if unsafe(spec, T[i]):
+        ctx.count('hist_unsafe:' + unsafe_condition(spec, T[i]))
+    # histories in which the safety verdicts decide the answer: it differs from
+    # the one obtained when every trial is taken to be safe
+    raw = {i: _signed(goals, T[i]['v']) for i in q_obj}
+    if _front(raw) != fronts['warp-unsafe']:
+      ctx.count('hist:safety_verdict_decides_answer')
   ctx.count('hist:single_objective' if len(goals) == 1 else 'hist:multi_objective')
   if len(set(goals)) > 1:
     ctx.count('hist:mixed_goals')
+  if len(cfg) >= 2 and cfg != sorted(cfg):
+    ctx.count('hist:config_order_not_alphabetical')
+  if 's' in cfg_shape.rstrip('s'):
+    ctx.count('hist:safety_configured_before_an_objective')
+  if any(t.get('near') or t.get('zn') for t in T):
+    ctx.count('hist:unconfigured_metric_with_similar_name')
   if len(front) >= 2:
     ctx.count('hist:with_ties' if len(goals) == 1 else 'hist:front_of_two_or_more')
   if n_q > len(front):
